@@ -266,6 +266,154 @@ fn check_in(dir: &Path, case: &Case, obs: &mut Obs) -> CaseResult {
     Ok(())
 }
 
+// ---- one file kept open for a very long time ---------------------------------------------------------------------
+
+/// `records` appends of `len` bytes through one appender; the limit is reached only after more than 65 536 of them.
+#[derive(Serialize, Deserialize, Debug, Clone)]
+pub struct Long {
+    pub records: usize,
+    pub len: usize,
+    pub limit: u64,
+}
+
+pub fn check_long(tmp: &Path, c: &Long, obs: &mut Obs) -> CaseResult {
+    let dir = scratch(tmp, "c06l");
+    let r = (|| -> CaseResult {
+        let path = dir.join("active.log");
+        let log: Arc<Mutex<Vec<Consultation>>> = Arc::new(Mutex::new(vec![]));
+        let roller = RollSpec::Fixed { base: 0, count: 2, pattern: "arch.{}.log".into() };
+        let policy = Box::new(ObservingPolicy { inner: make_policy(&dir, &TrigSpec::Size(c.limit), &roller).unwrap(), log: log.clone() });
+        let app = build_appender(&path, true, &None, policy).map_err(|e| Failure { sig: "C06:build".into(), msg: e.to_string() })?;
+        let msg = text_of(c.len, 0);
+        let mut size = 0u64;
+        let mut rolls = 0;
+        for i in 0..c.records {
+            log.lock().unwrap().clear();
+            match catch(|| append_msg(&app, &msg)) {
+                Err(p) => return fail("C06:panic", format!("append #{} panicked: {}", i, p)),
+                Ok(Err(e)) => return fail("C06:append-error", format!("append #{} failed: {}", i, e)),
+                Ok(Ok(())) => {}
+            }
+            size += c.len as u64;
+            let cons = log.lock().unwrap().clone();
+            ensure!(cons.len() == 1, "C06:consultations", "append #{}: the policy was consulted {} times", i, cons.len());
+            let k = &cons[0];
+            ensure!(
+                k.len_estimate == size && k.on_disk == Some(size),
+                "C06:size-accounting",
+                "append #{} of {} through one open file: the policy was shown {} bytes, the file on disk has {:?}, {} bytes were written since the last rotation", i, c.records, k.len_estimate, k.on_disk, size
+            );
+            let should = size > c.limit;
+            ensure!(!k.exists_after == should, if should { "C06:roll-deferred" } else { "C06:roll-early" }, "append #{}: {} bytes against a limit of {}: rotation {} but {}", i, size, c.limit, if should { "must happen" } else { "must not happen" }, if k.exists_after { "the file stayed" } else { "it was rolled" });
+            if should {
+                size = 0;
+                rolls += 1;
+            }
+            obs.sub_evals += 1;
+        }
+        obs.nontrivial = rolls >= 1;
+        obs.class("one-open-file-for-more-than-65536-records");
+        Ok(())
+    })();
+    let _ = std::fs::remove_dir_all(&dir);
+    r
+}
+
+// ---- a user-defined pre-processing policy --------------------------------------------------------------------------
+
+/// The policy is consulted BEFORE the record is written (a user-defined pre-processing policy around the real
+/// size trigger and a roller that fails on scripted calls): it must be shown the true size every time, also right
+/// after a failed roll has made the appender close its file.
+#[derive(Serialize, Deserialize, Debug, Clone)]
+pub struct Pre {
+    pub limit: u64,
+    pub pre_existing: usize,
+    pub append_mode: bool,
+    pub lens: Vec<usize>,
+    pub flaky: Vec<bool>,
+}
+
+pub fn pre_strategy() -> impl Strategy<Value = Pre> {
+    (10u64..300, prop_oneof![Just(0usize), 1usize..400], prop::bool::weighted(0.7), prop::collection::vec(prop_oneof![0usize..40, 60usize..200], 2..=20), prop::collection::vec(prop::bool::weighted(0.5), 0..=5))
+        .prop_map(|(limit, pre_existing, append_mode, lens, flaky)| Pre { limit, pre_existing, append_mode, lens, flaky })
+}
+
+#[derive(Debug)]
+struct PrePolicy(Box<dyn log4rs::append::rolling_file::policy::Policy>);
+
+impl log4rs::append::rolling_file::policy::Policy for PrePolicy {
+    fn process(&self, log: &mut log4rs::append::rolling_file::LogFile) -> anyhow::Result<()> {
+        self.0.process(log)
+    }
+    fn is_pre_process(&self) -> bool {
+        true
+    }
+}
+
+pub fn check_pre(tmp: &Path, c: &Pre, obs: &mut Obs) -> CaseResult {
+    let dir = scratch(tmp, "c06p");
+    let r = (|| -> CaseResult {
+        let path = dir.join("active.log");
+        if c.pre_existing > 0 {
+            std::fs::write(&path, vec![b'p'; c.pre_existing]).unwrap();
+        }
+        let log: Arc<Mutex<Vec<Consultation>>> = Arc::new(Mutex::new(vec![]));
+        let roller = RollSpec::Fixed { base: 0, count: 2, pattern: "arch.{}.log".into() };
+        let failures = Arc::new(std::sync::atomic::AtomicUsize::new(0));
+        let inner = make_flaky_policy(&dir, &TrigSpec::Size(c.limit), &roller, &c.flaky, &failures).unwrap();
+        let policy = Box::new(ObservingPolicy { inner: Box::new(PrePolicy(inner)), log: log.clone() });
+        let app = build_appender(&path, c.append_mode, &None, policy).map_err(|e| Failure { sig: "C06:build".into(), msg: e.to_string() })?;
+        let mut size: u64 = if c.append_mode { c.pre_existing as u64 } else { 0 };
+        let mut roller_calls = 0usize;
+        let mut failed_rolls = 0;
+        for (i, len) in c.lens.iter().enumerate() {
+            log.lock().unwrap().clear();
+            let res = match catch(|| append_msg(&app, &text_of(*len, 0))) {
+                Err(p) => return fail("C06:panic", format!("append #{} panicked: {}", i, p)),
+                Ok(r) => r,
+            };
+            let cons = log.lock().unwrap().clone();
+            ensure!(cons.len() == 1, "C06:consultations", "append #{}: the pre-processing policy was consulted {} times", i, cons.len());
+            let k = &cons[0];
+            ensure!(
+                k.len_estimate == size && k.on_disk.unwrap_or(0) == size,
+                "C06:size-accounting",
+                "append #{} (pre-processing policy, {} failed roll(s) so far): shown {} bytes, on disk {:?}, true size {}", i, failed_rolls, k.len_estimate, k.on_disk, size
+            );
+            let should = size > c.limit;
+            let fails = should && c.flaky.get(roller_calls).copied().unwrap_or(false);
+            if should {
+                roller_calls += 1;
+            }
+            if fails {
+                failed_rolls += 1;
+                ensure!(res.is_err(), "C06:error-swallowed", "append #{}: the roller failed but the append reported success", i);
+                // the record of a failed pre-processing step is not written; the file stays as it is
+                let on_disk = std::fs::metadata(&path).map(|m| m.len()).unwrap_or(0);
+                ensure!(on_disk == size, "C06:failed-roll-state", "append #{}: after a failed roll the file has {} bytes, expected {}", i, on_disk, size);
+                continue;
+            }
+            if let Err(e) = res {
+                return fail("C06:append-error", format!("append #{} failed although nothing was scripted to fail: {}", i, e));
+            }
+            ensure!(!k.exists_after == should, if should { "C06:roll-deferred" } else { "C06:roll-early" }, "append #{} (pre-processing): {} bytes against a limit of {}: rotation {} but {}", i, size, c.limit, if should { "must happen before the record is written" } else { "must not happen" }, if k.exists_after { "the file stayed" } else { "it was rolled" });
+            if should {
+                size = 0;
+            }
+            size += *len as u64;
+            let on_disk = std::fs::metadata(&path).map(|m| m.len()).unwrap_or(0);
+            ensure!(on_disk == size, "C06:active-content", "append #{} (pre-processing): the file has {} bytes after the append, expected {}", i, on_disk, size);
+            obs.sub_evals += 1;
+        }
+        obs.nontrivial = failed_rolls > 0;
+        obs.class_if(failed_rolls > 0, "pre-processing:consulted-right-after-a-failed-roll");
+        obs.class_if(!c.append_mode, "pre-processing:truncate-mode");
+        Ok(())
+    })();
+    let _ = std::fs::remove_dir_all(&dir);
+    r
+}
+
 // ---- several threads: what the policy is shown is what is on disk, at every consultation ------------------------
 
 #[derive(Serialize, Deserialize, Debug, Clone)]
@@ -382,6 +530,14 @@ pub fn run(run: &Run) {
         let ops: Vec<Op> = (0..6000).map(|i| Op::Abs(20 + (i % 7) * 5)).collect();
         run.eval_one("size", &Case { limit: 100, append_mode: true, pre: None, count: 2, chunks: None, charset: 0, ops, flaky: vec![], enc_fail: vec![], symlink: false }, &f);
     }
+    if run.worker.0 == 1 % run.worker.1 {
+        let t = run.tmp.clone();
+        run.eval_one("long", &Long { records: 70_000, len: 10, limit: 655_395 }, &move |c: &Long, o: &mut Obs| check_long(&t, c, o));
+    }
+    let tmp3 = run.tmp.clone();
+    let h = move |c: &Pre, o: &mut Obs| check_pre(&tmp3, c, o);
+    run.run_replays::<Pre>("pre-processing", &h);
+    run.search("pre-processing", run.tier.pick(150, 6_000), pre_strategy(), &h);
     let tmp = run.tmp.clone();
     let g = move |c: &Conc, o: &mut Obs| check_conc(&tmp, c, o);
     run.run_replays::<Conc>("contended", &g);
@@ -394,6 +550,13 @@ pub fn replay(part: &str, case: serde_json::Value) -> Option<CaseResult> {
             let tmp = std::env::temp_dir().join(format!("lv-replay-{}", std::process::id()));
             std::fs::create_dir_all(&tmp).ok()?;
             let r = check(&tmp, &serde_json::from_value(case).ok()?, &mut Obs::default());
+            let _ = std::fs::remove_dir_all(&tmp);
+            Some(r)
+        }
+        "long" | "pre-processing" => {
+            let tmp = std::env::temp_dir().join(format!("lv-replay-{}", std::process::id()));
+            std::fs::create_dir_all(&tmp).ok()?;
+            let r = if part == "long" { check_long(&tmp, &serde_json::from_value(case).ok()?, &mut Obs::default()) } else { check_pre(&tmp, &serde_json::from_value(case).ok()?, &mut Obs::default()) };
             let _ = std::fs::remove_dir_all(&tmp);
             Some(r)
         }
@@ -411,7 +574,7 @@ pub fn replay(part: &str, case: serde_json::Value) -> Option<CaseResult> {
 pub fn meta() -> EvidenceMeta {
     EvidenceMeta {
         level: "exploration",
-        rule: "cases = limit N in {0,1,2,63,64,1023,1024,1025, random <= 5000} x pre-existing active file (absent / N-1 / N / N+1 / random) x append or truncate mode x window count 1-3 x pattern or multi-chunk encoder x 1-25 operations: appends whose byte length is chosen relative to the room left before the limit (room-3..room+3) or absolute around the 1 KiB buffer, with 1-4-byte characters, and restarts; the real CompoundPolicy(SizeTrigger, FixedWindowRoller) is wrapped in a harness Policy recording len_estimate and fs::metadata().len() at every consultation. Oracle: exactly one consultation per append; len_estimate == on-disk size == model size (pre-existing + records; 0 at open in truncate mode); rotation during this append iff size > N; afterwards the active file is absent or <= N bytes and byte-identical to pre-existing ++ records; the newest archive equals the rolled content. The configured path may be a symbolic link to the pre-existing file. Part contended: 2-4 threads append through one appender whose encoder hands records over in pieces and dawdles; at every consultation len_estimate == on-disk size and the file is rolled iff that size > N. non-trivial = a consultation with |size - N| <= 1, or pre-existing content in append mode, or multi-byte payload, or a scripted roller failure (user-defined roller around the real one that fails on chosen calls and leaves the file in place: accounting and re-triggering must stay exact)".into(),
+        rule: "cases = limit N in {0,1,2,63,64,1023,1024,1025, random <= 5000} x pre-existing active file (absent / N-1 / N / N+1 / random) x append or truncate mode x window count 1-3 x pattern or multi-chunk encoder x 1-25 operations: appends whose byte length is chosen relative to the room left before the limit (room-3..room+3) or absolute around the 1 KiB buffer, with 1-4-byte characters, and restarts; the real CompoundPolicy(SizeTrigger, FixedWindowRoller) is wrapped in a harness Policy recording len_estimate and fs::metadata().len() at every consultation. Oracle: exactly one consultation per append; len_estimate == on-disk size == model size (pre-existing + records; 0 at open in truncate mode); rotation during this append iff size > N; afterwards the active file is absent or <= N bytes and byte-identical to pre-existing ++ records; the newest archive equals the rolled content. The configured path may be a symbolic link to the pre-existing file. Part long: 70 000 appends of 10 bytes through one open file whose limit is reached after 65 540 of them, accounting checked at every consultation. Part pre-processing: a user-defined pre-processing policy around the real size trigger and a roller failing on scripted calls: consulted before the record is written, it must be shown the true size every time, also right after a failed roll made the appender close its file. Part contended: 2-4 threads append through one appender whose encoder hands records over in pieces and dawdles; at every consultation len_estimate == on-disk size and the file is rolled iff that size > N. non-trivial = a consultation with |size - N| <= 1, or pre-existing content in append mode, or multi-byte payload, or a scripted roller failure (user-defined roller around the real one that fails on chosen calls and leaves the file in place: accounting and re-triggering must stay exact)".into(),
         assumptions: vec!["foreground rotation build".into()],
         mutants_caught: vec![],
     }
